@@ -295,6 +295,7 @@ def xOKB (env : Env) : XTbls α → List Section → Section → Nat → List (X
   | T, secs, cur, _, .sect name :: r => xOKB env T (secs ++ (if cur.isEmpty then [] else [cur])) ⟨name, []⟩ 1 r
   | T, secs, cur, num, .entry _ _ :: r => xOKB env T secs cur num r
   | T, secs, cur, num, .para s :: r => xOKB env T secs ⟨cur.name, cur.content ++ xParaContent s⟩ num r
+  | T, secs, cur, num, .comps st :: r => xOKB env (xCTbls T st) secs cur num r
 
 theorem rtdr_xOKB (env : Env) : ∀ (blocks : List (XBlock α)) (T : XTbls α) (secs : List Section) (cur : Section)
     (num : Nat), xOKB env T secs cur num blocks = true → xOK env T secs cur num blocks := by
@@ -310,6 +311,7 @@ theorem rtdr_xOKB (env : Env) : ∀ (blocks : List (XBlock α)) (T : XTbls α) (
     | sect name => exact ih _ _ _ _ h
     | entry k v => exact ih _ _ _ _ h
     | para s => exact ih _ _ _ _ h
+    | comps st => exact ih _ _ _ _ h
 
 /-! ### documents -/
 
